@@ -60,6 +60,11 @@ Record c18case := mkCase { k_tag : string; k_ver : Z; k_ep : endpoint; k_class :
 (* long lists of identical items *)
 Definition rep {A : Type} (n : N) (x : A) : list A := List.repeat x (N.to_nat n).
 
+(* The verdicts judge by what the dispatcher will index, i.e. the nested walk, whatever the translator
+   found about CheckCompatibleMap: the literal root keys are dropped, so that ccm_value = pval_of. *)
+Definition spec_point (p : point) : point := mkPt (pt_id p) (pt_vals p) (pt_size p) [].
+Definition spec_points (r : points2) : points2 := mkPts (map spec_point (ps_points r)) (ps_maxsize r).
+
 Inductive expect := XReject | XRefused | XPanic | XCall (o : op) | XBad.
 
 Definition of_hres (h : hres) : expect :=
@@ -108,7 +113,7 @@ Definition expected (c : c18case) : expect :=
         with_body c (fun b =>
           match b with
           | BPoints2 r => if v1 then XBad else
-              match handler_insert2 (cx_schema x) r with
+              match handler_insert2 (cx_schema x) (spec_points r) with
               | Call (OpInsert n) => if insert_refused x n then XRefused else XCall (OpInsert n)
               | h => of_hres h end
           | BPoints1 r => if v1 then
@@ -119,7 +124,7 @@ Definition expected (c : c18case) : expect :=
     | EpUpdate => match uri_ok (k_ver c) (k_uri c) with Some e => e | None =>
         with_body c (fun b =>
           match b with
-          | BPoints2 r => if v1 then XBad else of_hres (handler_update2 (cx_schema x) r)
+          | BPoints2 r => if v1 then XBad else of_hres (handler_update2 (cx_schema x) (spec_points r))
           | BPoints1 r => if v1 then of_hres (handler_update1 (cx_schema x) r) else XBad
           | _ => XBad end) end
     | EpDelPts => match uri_ok (k_ver c) (k_uri c) with Some e => e | None =>
@@ -177,8 +182,8 @@ Definition collection_level_reject (c : c18case) : bool :=
   | BSearch1 r => validate_search1 r && match v1_dim s with Some d => negb (s1_len r =? d) | None => false end
   | BPoints2 r =>
       match k_ep c with
-      | EpInsert => count_ok enf_points_insert_min enf_points_insert_max (ps_points r) && negb (validate_insert2 s r)
-      | _ => count_ok enf_points_update_min enf_points_update_max (ps_points r) && negb (validate_update2 s r)
+      | EpInsert => count_ok enf_points_insert_min enf_points_insert_max (ps_points r) && negb (validate_insert2 s (spec_points r))
+      | _ => count_ok enf_points_update_min enf_points_update_max (ps_points r) && negb (validate_update2 s (spec_points r))
       end
   | BPoints1 r =>
       match v1_dim s with
